@@ -8,7 +8,7 @@ LEVEL = 'other'
 EXPLANATION = ('Proved (simulation, unbounded in key patterns and values): every member of TapeRecorder in the must-equal list records a '
                'call of the same algebra operator as the MultiVector member of the same name, looked up with the key tuples in the same '
                'order, emitted by function name with the argument expressions in the same order, result keys from that lookup; __pow__ builds '
-               'the same operator tree as MultiVector.__pow__ for powers 0, +-n, 0.5; dual/undual/norm/normalized have the same branch and '
+               'the same operator tree as MultiVector.__pow__ for powers 0, +-n, 0.5 (and, by loop invariant, exactly |n| factors for every integer n in both classes); dual/undual/norm/normalized have the same branch and '
                'composition structure; grade keeps exactly the stored keys of the requested grades paired with their positions (length-3 key '
                'tuple, generic membership); coefficient access is the signed scalar; do_compile emits def <name>(<args>): return <expr> into '
                'algebra.numspace; Registry.__getitem__/__call__ generate once and dispatch by key pattern.  symbolic=True reduces to '
